@@ -297,13 +297,16 @@ func (rw *rewriter) file(fset *token.FileSet, f *ast.File, path string) (poolRef
 		// keep re-pointed imports used whatever was replaced
 		p, _ := strconv.Unquote(is.Path.Value)
 		name := filepath.Base(p)
+		if len(name) >= 2 && name[0] == 'v' && name[1] >= '0' && name[1] <= '9' {
+			name = filepath.Base(filepath.Dir(p)) // math/rand/v2 is package rand
+		}
 		if is.Name != nil {
 			name = is.Name.Name
 		}
 		if !touched[name] {
 			continue
 		}
-		keep := map[string]string{"time": "Nanosecond", "runtime": "GOOS"}[p]
+		keep := map[string]string{"time": "Nanosecond", "runtime": "GOOS", "math/rand": "NewSource", "math/rand/v2": "NewPCG"}[p]
 		if keep == "" {
 			continue
 		}
@@ -378,9 +381,17 @@ func (rw *rewriter) retime(f *ast.File) map[string]bool {
 			}
 		case "runtime":
 			switch sel.Sel.Name {
-			case "SetFinalizer", "Gosched":
+			case "SetFinalizer", "Gosched", "GOMAXPROCS", "NumCPU":
 				touched[id.Name] = true
 				id.Name = "simrt"
+			}
+		case "math/rand", "math/rand/v2":
+			switch sel.Sel.Name {
+			case "Int", "Intn", "Int31", "Int31n", "Int63", "Int63n", "Uint32", "Uint64", "Float64", "Float32", "Seed", "Shuffle", "Perm",
+				"IntN", "Int64N", "Int32N", "Uint32N", "Uint64N", "UintN", "Int64", "Int32":
+				touched[id.Name] = true
+				id.Name = "simrt"
+				sel.Sel = ast.NewIdent("Rand" + sel.Sel.Name)
 			}
 		}
 		return true
